@@ -14,7 +14,7 @@ checks = {
  "C02": dict(cat="exploration", tech="runtime monitoring: acceptance-rule oracle on observed chain, read-back, id freshness, state-dump framing; exhaustive small scope + random histories", ref="DESIGN.md §7 C02",
    text="Every AddVersion (exhaustive small scope: chain length 0..5/8 x base x snapshot x every class of parent; plus random histories incl. re-sent versions) is judged against the compare-and-append rule on the observed chain; accepted ones are read back byte-for-byte and checked fresh/latest, rejected ones must name the latest and leave a full state dump unchanged."),
  "C07": dict(cat="exploration", tech="runtime monitoring: immutability ledger re-read after every later operation and reopen", ref="DESIGN.md §7 C07",
-   text="A ledger of every accepted (version, parent, payload) is re-read through GetChildVersion after later operations (a third after each op, all every 10 ops, after each reopen, at the end), across snapshots, rejected requests, other clients and reopen, incl. 500-2000-op histories."),
+   text="A ledger of every accepted (version, parent, payload) is re-read through GetChildVersion after later operations (a third after each op, all every 10 ops, after each reopen, at the end), across snapshots, rejected requests, other clients and reopen, incl. 500-2000-op histories; plus multi-threaded stress runs after which every acknowledged version must still be served unchanged."),
  "C08": dict(cat="exploration", tech="runtime monitoring: paired-probe oracle GetChildVersion(p);AddVersion(p) on one state; exhaustive small scope + random", ref="DESIGN.md §7 C08",
    text="GetChildVersion(p) immediately followed by AddVersion(p) on the same state: found iff an accepted child exists, not-found iff the add is accepted, gone iff rejected; exhaustive over chain length x base x snapshot x class of p, plus random histories; never-seen clients answered not-found."),
  "C09": dict(cat="exploration", tech="runtime monitoring: two-run non-interference (projection re-run alone) + per-operation dumps of all other clients", ref="DESIGN.md §7 C09",
@@ -22,7 +22,7 @@ checks = {
  "C10": dict(cat="exploration", tech="runtime monitoring: window-predicate oracle on observed chain/snapshot, decline framing by state dumps, monotone position; exhaustive small scope + random bursts", ref="DESIGN.md §7 C10",
    text="Every AddSnapshot is judged by the five-version window predicate evaluated on the observed state (exhaustive: chain length 0..6/8 x base x snapshot position x class of v; random bursts); declines must leave the full dump unchanged; snapshot position never moves backwards; the unspecified corner (v == non-nil base) is tolerated and tallied."),
  "C11": dict(cat="exploration", tech="runtime monitoring: snapshot pairing oracle (distinct bytes per upload) + walk from snapshot to latest after every AddVersion/AddSnapshot", ref="DESIGN.md §7 C11",
-   text="After every AddVersion/AddSnapshot the snapshot is fetched: it must be the previously returned pair or exactly the pair just uploaded, never a mix or a stale one, and the walk from its id must reach the latest without gone. Sequential histories (the concurrent part is covered by C03's scenarios when built)."),
+   text="After every AddVersion/AddSnapshot the snapshot is fetched: it must be the previously returned pair or exactly the pair just uploaded, never a mix or a stale one, and the walk from its id must reach the latest without gone. Concurrent part: all E2 scenarios containing AddSnapshot on an existing chain under the controlled scheduler with the differential linearizability oracle."),
  "C12": dict(cat="exploration", tech="runtime monitoring: exact-arithmetic urgency oracle and versions-since counter monitor over real histories", ref="DESIGN.md §7 C12",
    text="For real histories on both backends (incl. reopen) the stored versions-since counter must equal the number of versions accepted since the snapshot was stored and each accepted AddVersion's urgency must equal the wide-integer specification for (targets, age, since)."),
  "C13": dict(cat="exploration", tech="runtime monitoring: lock-step differential execution (in-memory vs SQLite vs SQLite reopened at 10/50/100% of gaps)", ref="DESIGN.md §7 C13",
